@@ -38,7 +38,8 @@ pub const EXT_TABLE: [&[u8]; 16] = [
     b"ext-12",
     b"ext-13",
     b"ext-14",
-    b"ext-15",
+    // (not ASCII: device-dependent information is free text)
+    b"T=85\xb0C",
 ];
 
 pub const MSG_TABLE: [&[u8]; 8] = [
